@@ -194,8 +194,12 @@ func (c *Ctx) globalWrites(g *ssa.Global, funcs []*ssa.Function) (writes []globa
 		})
 		// address of the global taken for anything but load/store
 		for _, ref := range safeReferrers(g, f) {
-			switch ref.(type) {
+			switch x := ref.(type) {
 			case *ssa.Store, *ssa.UnOp:
+			case *ssa.IndexAddr:
+				c.addrWrites(f, x, &writes, &unknown, map[ssa.Value]bool{})
+			case *ssa.FieldAddr:
+				c.addrWrites(f, x, &writes, &unknown, map[ssa.Value]bool{})
 			default:
 				unknown = append(unknown, globalWrite{f, ref.Pos(), "address of the variable escapes"})
 			}
@@ -477,6 +481,7 @@ func (c *Ctx) evalSliceInit(rel string, g *ssa.Global) *sliceTable {
 	}
 	var stores []st
 	var mk *ssa.MakeSlice
+	var mkConst int64
 	nGlobalStores := 0
 	for f := range inits {
 		instrs(f, func(in ssa.Instruction) {
@@ -488,13 +493,15 @@ func (c *Ctx) evalSliceInit(rel string, g *ssa.Global) *sliceTable {
 				nGlobalStores++
 				if m, ok := s.Val.(*ssa.MakeSlice); ok {
 					mk = m
+				} else if sl, ok := s.Val.(*ssa.Slice); ok && isConstMake(sl) > 0 {
+					mkConst = isConstMake(sl)
 				} else {
 					t.err = "variable assigned from something other than make at " + c.pos(s.Pos())
 				}
 				return
 			}
 			ia, ok := s.Addr.(*ssa.IndexAddr)
-			if !ok || !isLoadOf(ia.X, g) {
+			if !ok || !(isLoadOf(ia.X, g) || ia.X == ssa.Value(g)) {
 				return
 			}
 			val := constVal(s.Val)
@@ -523,14 +530,28 @@ func (c *Ctx) evalSliceInit(rel string, g *ssa.Global) *sliceTable {
 	if t.err != "" {
 		return t
 	}
-	if mk == nil || nGlobalStores != 1 {
-		t.err = fmt.Sprintf("expected exactly one `make` assignment in an initialiser, found %d stores", nGlobalStores)
-		return t
-	}
-	n, ok := cInt(constVal(mk.Len))
-	if !ok {
-		t.err = "make with non-constant length"
-		return t
+	var n int64
+	if arr, isArr := g.Type().(*types.Pointer).Elem().Underlying().(*types.Array); isArr {
+		if nGlobalStores != 0 {
+			t.err = "array-typed table is assigned as a whole in an initialiser"
+			return t
+		}
+		n = arr.Len()
+	} else {
+		if (mk == nil && mkConst == 0) || nGlobalStores != 1 {
+			t.err = fmt.Sprintf("expected exactly one `make` assignment in an initialiser, found %d stores", nGlobalStores)
+			return t
+		}
+		if mkConst > 0 {
+			n = mkConst
+		} else {
+			var ok bool
+			n, ok = cInt(constVal(mk.Len))
+			if !ok {
+				t.err = "make with non-constant length"
+				return t
+			}
+		}
 	}
 	t.size = n
 	t.vals = make([]constant.Value, n)
@@ -678,6 +699,12 @@ func loopBoundIsLen(idx ssa.Value, g *ssa.Global) bool {
 				return true
 			}
 		}
+		// range over an array-typed global: bound is the constant array length
+		if arr, ok := g.Type().(*types.Pointer).Elem().Underlying().(*types.Array); ok {
+			if k, ok := cInt(constVal(b.Y)); ok && k == arr.Len() {
+				return true
+			}
+		}
 	}
 	return false
 }
@@ -687,4 +714,28 @@ func byteStr(b int) string {
 		return fmt.Sprintf("%q", rune(b))
 	}
 	return fmt.Sprintf("0x%02x", b)
+}
+
+// isConstMake recognises go/ssa's lowering of make([]T, N) with constant N: slice of a fresh [N]T; returns N.
+func isConstMake(sl *ssa.Slice) int64 {
+	al, ok := sl.X.(*ssa.Alloc)
+	if !ok || !al.Heap {
+		return 0
+	}
+	arr, ok := al.Type().(*types.Pointer).Elem().Underlying().(*types.Array)
+	if !ok || sl.Low != nil {
+		return 0
+	}
+	if sl.High != nil {
+		if k, ok := cInt(constVal(sl.High)); !ok || k != arr.Len() {
+			return 0
+		}
+	}
+	// the array must not be written except through the slice (fresh)
+	for _, ref := range *al.Referrers() {
+		if ref != ssa.Instruction(sl) {
+			return 0
+		}
+	}
+	return arr.Len()
 }
